@@ -100,7 +100,15 @@ def cases(tier, rng):
         mb = ([1 if rng.random() < 0.9 else 0 for _ in range(n)] if hasmask and tag == 1 else [])
         # the mask is "valid where non-zero": flags may be 1, 255, a basin id, a float
         mval = rng.choice(["bool", "u8:1", "u8:255", "i32:7", "f64:2.0"]) if hasmask else "bool"
-        yield {"k": 104, "args": [[req], [tag], [nr], [nc], a, b, [hasmask], ma, mb], "call": {"mval": mval}, "group": f"api-fmt{fmt}-req{req}-tag{tag}"}
+        call = {"mval": mval}
+        if tag == 1:
+            # NEXTXY given as the (nextx, nexty) pair the format module documents, and the documented 2-D user mask
+            if req in (2, 3) and rng.random() < 0.4:      # (a pair requested as D8 / LDD is a caller error outside the property)
+                call["xyform"] = "tuple"
+            if hasmask and rng.random() < 0.5:
+                call["mask2d"] = 1
+                mb = list(ma)
+        yield {"k": 104, "args": [[req], [tag], [nr], [nc], a, b, [hasmask], ma, mb], "call": call, "group": f"api-fmt{fmt}-req{req}-tag{tag}"}
     for dd in D8_ALL:
         if dd != 247:
             yield {"k": 105, "args": [[dd]], "group": "drdc"}
@@ -146,6 +154,10 @@ def impl(case):
         elif tag == 1:
             data = np.stack([np.array(A, dtype=np.int32).reshape(nr, nc), np.array(B, dtype=np.int32).reshape(nr, nc)])
             mask = np.stack([mk(ma), mk(mb)]) if hasmask else None
+            if hasmask and (case.get("call") or {}).get("mask2d"):
+                mask = mk(ma)
+            if (case.get("call") or {}).get("xyform") == "tuple":
+                data = (data[0], data[1])
         else:
             data = np.array(A, dtype=np.int16).reshape(nr, nc)
             mask = mk(ma) if hasmask else None
